@@ -321,6 +321,10 @@ class Interp(Run, StmtMixin, ExprMixin, CallMixin, BuiltinMixin, LoopMixin, Spec
             root.vars[cname] = self.sym_param(cname, ct)
             self.entry_params[cname] = root.vars[cname]
         fr = Frame(parent=root, func=pf)
+        if isinstance(node, ast.FunctionDef) and "." in qual and getattr(unit, "region", None) is None:
+            # a nested function sees its own name (bound in the enclosing function): recursion
+            # goes through the unit's own contract
+            root.vars.setdefault(node.name, py(pf, "func"))
         region = getattr(unit, "region", None)
         region_node = None
         if region is not None:
